@@ -1,0 +1,75 @@
+//go:build verif
+
+// Machine-checked contracts for package keys_and_cert (comment-only file;
+// never compiled into the library).  Read by /verif/engine (gvc).
+
+package keys_and_cert
+
+//@ import "github.com/go-i2p/common/certificate"
+//@ import "github.com/go-i2p/common/key_certificate"
+
+// declared sizes of the two keys
+//@ spec func CS(k *KeysAndCert) int { return key_certificate.SpecCryptoPubLen(key_certificate.CryptoType(k.KeyCertificate)) }
+//@ spec func SS(k *KeysAndCert) int { return key_certificate.SpecSigPubLen(key_certificate.SigType(k.KeyCertificate)) }
+
+// Representation invariant of every value the parsers of this package return.
+//@ spec func KacInv(k *KeysAndCert) bool {
+//@   return k != nil && key_certificate.KeyCertInv(k.KeyCertificate) && k.ReceivingPublic != nil && k.SigningPublic != nil &&
+//@     0 < CS(k) && CS(k) <= 256 && 0 < SS(k) && SS(k) <= 128 &&
+//@     k.ReceivingPublic.Len() == CS(k) && k.SigningPublic.Len() == SS(k) && len(k.Padding) == 384-CS(k)-SS(k)
+//@ }
+
+// The 384-byte key block and the whole wire image, from the specification:
+// crypto key at the start, signing key at the end, padding between.
+//@ spec func KacBlock(k *KeysAndCert) []byte { return cat(k.ReceivingPublic.Bytes(), k.Padding, k.SigningPublic.Bytes()) }
+//@ spec func KacWire(k *KeysAndCert) []byte { return cat(KacBlock(k), certificate.CertWire(&k.KeyCertificate.Certificate)) }
+
+//@ spec func certLen(data []byte) int { return 3 + u16(data[385:387]) }
+
+//@ spec func typesSupported(sig int, crypto int) bool {
+//@   return (crypto == 0 || (4 <= crypto && crypto <= 7)) && (sig == 0 || sig == 1 || sig == 2 || sig == 7 || sig == 8 || sig == 11)
+//@ }
+
+//@ contract ReadKeysAndCert(data []byte) (k *KeysAndCert, remainder []byte, err error)
+//@   ensures @C08 fresh(k.Padding) && fresh(k.KeyCertificate.SpkType) && fresh(k.KeyCertificate.CpkType) && fresh(certificate.CertPayload(&k.KeyCertificate.Certificate)) && fresh(certificate.CertKind(&k.KeyCertificate.Certificate)) && fresh(certificate.CertLenBytes(&k.KeyCertificate.Certificate))
+//@   ensures @C08 k != nil ==> fresh(k.ReceivingPublic.Bytes()) && fresh(k.SigningPublic.Bytes())
+//@   ensures @C01 @C02 @C03 (err == nil) == (len(data) >= 387 && certLen(data) <= len(data)-384 && ((data[384] == 0) || (data[384] == 5 && u16(data[385:387]) >= 4 && typesSupported(u16(data[387:389]), u16(data[389:391])))))
+//@   ensures @C03 err == nil ==> suffix(remainder, data, 384+certLen(data))
+//@   ensures @C01 @C10 err == nil ==> KacInv(k)
+//@   ensures @C01 err == nil ==> seqeq(KacWire(k), data[:384+certLen(data)])
+//@   ensures @C02 @C10 err == nil ==> seqeq(k.ReceivingPublic.Bytes(), data[:CS(k)]) && seqeq(k.SigningPublic.Bytes(), data[384-SS(k):384]) && seqeq(k.Padding, data[CS(k):384-SS(k)])
+//@   ensures @C02 @C10 err == nil && data[384] == 5 ==> key_certificate.SigType(k.KeyCertificate) == u16(data[387:389]) && key_certificate.CryptoType(k.KeyCertificate) == u16(data[389:391])
+//@   ensures @C02 err == nil && data[384] == 0 ==> key_certificate.SigType(k.KeyCertificate) == 0 && key_certificate.CryptoType(k.KeyCertificate) == 0
+//@   ensures err != nil ==> k == nil
+//@   modifies nothing
+
+//@ contract (keys_and_cert *KeysAndCert) Bytes() (b []byte, err error)
+//@   requires keys_and_cert == nil || KacInv(keys_and_cert)
+//@   ensures fresh(b)
+//@   ensures (err == nil) == (keys_and_cert != nil)
+//@   ensures @C01 @C02 err == nil ==> len(b) == 384 + len(certificate.CertWire(&keys_and_cert.KeyCertificate.Certificate))
+//@   ensures @C01 @C02 err == nil ==> seqeq(b[:384], KacBlock(keys_and_cert))
+//@   ensures @C01 @C02 err == nil ==> seqeq(b[384:], certificate.CertWire(&keys_and_cert.KeyCertificate.Certificate))
+//@   ensures @C01 @C02 err == nil ==> seqeq(b, KacWire(keys_and_cert))
+//@   modifies nothing
+
+//@ contract (kac *KeysAndCert) Validate() (err error)
+//@   requires kac == nil || KacInv(kac)
+//@   ensures (err == nil) == (kac != nil)
+//@   modifies nothing
+
+//@ lemma C01_ReadKeysAndCert(data []byte) {
+//@   k, rem, err := ReadKeysAndCert(data)
+//@   if err == nil {
+//@     b, e := k.Bytes()
+//@     assert(e == nil && seqeq(b, data[:len(data)-len(rem)]))
+//@   }
+//@ }
+
+//@ lemma C03_ReadKeysAndCert_noprefix(w []byte, j int) {
+//@   _, r, e := ReadKeysAndCert(w)
+//@   if e == nil && len(r) == 0 && 0 <= j && j < len(w) {
+//@     _, _, e2 := ReadKeysAndCert(w[:j])
+//@     assert(e2 != nil)
+//@   }
+//@ }
